@@ -2,6 +2,11 @@ package h
 
 import (
 	"fmt"
+	"strings"
+	"time"
+
+	"verifsim/rdbgen"
+	"verifsim/simrt"
 )
 
 // C01 — incremental replay applies every source write once, in order, in the right DB
@@ -47,10 +52,141 @@ func runC01(r *Run, stratum string) *Violation {
 // fault-free replay runs of a filter-heavy stratum, end to end at the target log, against a direct evaluation of
 // the configured rules (own prefix match, HASH_SLOT from the cluster specification, own key-position table).
 func init() {
-	Register(&PropertyDef{ID: "C10", Strata: []string{"filters", "filters-txn", "filters-slots"}, Run: runC10, StepCap: 30000})
+	Register(&PropertyDef{ID: "C10", Strata: []string{"filters", "filters-txn", "filters-slots", "snapshot"}, Run: runC10, StepCap: 30000})
+}
+
+// runC10Snapshot: the filters on the snapshot path. A full sync replays exactly the snapshot keys the key and database
+// rules accept (same independent evaluator as the incremental strata); the accepted ones arrive as C03 demands.
+func runC10Snapshot(r *Run) *Violation {
+	g := r.Gen()
+	base := []string{"restore", "expand", "chunked", "parallel"}[g.Choose("c10base", 4)]
+	cfg, o := genSnapCfg(g, base)
+	o.NowMs = time.Now().UnixMilli()
+	if o.MaxKeys == 0 || o.MaxKeys > 40 {
+		o.MaxKeys = 40
+	}
+	ds := rdbgen.Gen(g, o)
+	// rules drawn from the dataset itself, so that each kind rejects some keys and accepts others
+	f := &FilterSpec{}
+	pick := func(label string) *rdbgen.Key { return ds.Keys[g.Choose(label, len(ds.Keys))] }
+	prefixOf := func(k *rdbgen.Key) string {
+		n := g.Choose("pfxlen", 4)
+		if n > len(k.Name) {
+			n = len(k.Name)
+		}
+		return string(k.Name[:n]) // may be empty: the empty prefix matches every key
+	}
+	if len(ds.Keys) > 0 {
+		for i := g.Choose("npfxblack", 3); i > 0; i-- {
+			if p := prefixOf(pick("pfxbkey")); p != "" {
+				f.PrefixBlack = append(f.PrefixBlack, p)
+			}
+		}
+		if g.Choose("usewhite", 3) == 0 {
+			for i := 1 + g.Choose("npfxwhite", 3); i > 0; i-- {
+				if p := prefixOf(pick("pfxwkey")); p != "" {
+					f.PrefixWhite = append(f.PrefixWhite, p)
+				}
+			}
+		}
+		rng := func(label string) [2]int {
+			s := HashSlot(pick(label + "key").Name)
+			lo := s - g.Choose(label+"lo", 3)*g.Choose(label+"lospan", 3000)
+			hi := s + g.Choose(label+"hi", 3)*g.Choose(label+"hispan", 3000)
+			if lo < 0 {
+				lo = 0
+			}
+			if hi > 16383 {
+				hi = 16383
+			}
+			return [2]int{lo, hi}
+		}
+		for i := g.Choose("nslotblack", 3); i > 0; i-- {
+			f.SlotBlack = append(f.SlotBlack, rng("slotb"))
+		}
+		if g.Choose("useslotwhite", 3) == 0 {
+			for i := 1 + g.Choose("nslotwhite", 3); i > 0; i-- {
+				f.SlotWhite = append(f.SlotWhite, rng("slotw"))
+			}
+		}
+		for i := g.Choose("ndbblack", 3); i > 0; i-- {
+			f.DbBlacklist = append(f.DbBlacklist, pick("dbbkey").DB)
+		}
+	}
+	cfg.Filters = f
+	ss := NewSnapSim(r, "C10", cfg, ds)
+	dbBlack := map[int]bool{}
+	for _, d := range f.DbBlacklist {
+		dbBlack[d] = true
+	}
+	rejected := map[string]*rdbgen.Key{}
+	accepted := 0
+	for _, k := range ds.Keys {
+		if dbBlack[k.DB] || keyRejected(k.Name, f) {
+			rejected[fmt.Sprintf("%d/%s", cfg.mapDB(k.DB), k.Name)] = k
+		} else {
+			accepted++
+		}
+	}
+	// a rejected key and an accepted key of another source database may map to the same target key
+	for _, k := range ds.Keys {
+		id := fmt.Sprintf("%d/%s", cfg.mapDB(k.DB), k.Name)
+		if rk := rejected[id]; rk != nil && rk != k && !(dbBlack[k.DB] || keyRejected(k.Name, f)) {
+			delete(rejected, id)
+		}
+	}
+	ss.skipKey = func(id string) bool { return rejected[id] != nil }
+	r.Sample = fmt.Sprintf("snapshot cfg{%s} filters{db=%v pblack=%q pwhite=%q sblack=%v swhite=%v} keys=%d rejected=%d", cfg, f.DbBlacklist, f.PrefixBlack, f.PrefixWhite, f.SlotBlack, f.SlotWhite, len(ds.Keys), len(rejected))
+	r.Logf("C10 %s", r.Sample)
+	restore := ss.start()
+	defer restore()
+	finished := ss.run()
+	done, err := ss.isDone()
+	tEnd := time.Now()
+	elapsed := tEnd.Sub(ss.t0)
+	var v *Violation
+	switch {
+	case !finished:
+		ss.shutdown()
+		Inconc("step cap reached before the snapshot replay ended")
+	case !done:
+		v = ss.violation("C10.hang", "snapshot replay with filters does not return", "fed %d/%d bytes, target idle, Send has not returned", ss.fed, len(ss.rdb))
+	case err != nil:
+		v = ss.violation("C10.failed", "snapshot replay with filters failed without any fault: "+ss.failClass(err), "Send returned an error in a fault-free run: %v%s", strings.SplitN(err.Error(), "\n", 2)[0], ss.suspect())
+	}
+	if v == nil {
+		ss.drainPending(10000)
+		r.Advance(time.Millisecond)
+		for id, k := range rejected {
+			if obj := ss.srv.Get(cfg.mapDB(k.DB), string(k.Name)); obj != nil {
+				why := "key rules"
+				if dbBlack[k.DB] {
+					why = "database blacklist"
+				}
+				empty := ""
+				if len(k.Name) == 0 {
+					empty = ", empty key name"
+				}
+				v = ss.violation("C10.forwarded", "a snapshot key the filters reject reached the target ("+why+empty+")", "snapshot key %s (source db %d, slot %d) is rejected by the %s (%s) but exists on the target as %s (%s)", k.Describe(), k.DB, HashSlot(k.Name), why, r.Sample[strings.Index(r.Sample, "filters{"):], obj.TypeName(), id)
+				break
+			}
+		}
+		if v == nil {
+			v = ss.compare(elapsed, tEnd.UnixMilli())
+		}
+	}
+	r.NonTriv = done && len(rejected) > 0 && accepted > 0
+	if len(rejected) > 0 {
+		simrt.Probe("c10_snapshot_keys_rejected")
+	}
+	ss.shutdown()
+	return v
 }
 
 func runC10(r *Run, stratum string) *Violation {
+	if stratum == "snapshot" {
+		return runC10Snapshot(r)
+	}
 	g := r.Gen()
 	txn := -1
 	if stratum == "filters-txn" {
